@@ -142,7 +142,7 @@ func runC11(p *an.Prog, r *an.Run, tier string) {
 			if kind == "memory" {
 				sameID = stripConv(src.Key) == stripConv(u.Key)
 			} else {
-				dk := p.Derives(0, src.Key)
+				dk := p.Derives(2, src.Key)
 				sameID = dk.HasValue(stripConv(u.Key)) || dk.HasValue(u.Key)
 			}
 			if !sameID {
@@ -264,7 +264,7 @@ func runC11(p *an.Prog, r *an.Run, tier string) {
 				if o.Kind != opRead || !o.inSpace("node") || o.Key == nil {
 					continue
 				}
-				dk := p.Derives(0, o.Key)
+				dk := p.Derives(2, o.Key)
 				if len(np.Params) > 1 && dk.HasParam(np.Params[1]) {
 					continue // the node's own record
 				}
